@@ -4,6 +4,7 @@ import UscxmlVerif.Proofs.CfgInv
 import UscxmlVerif.Proofs.Root
 import UscxmlVerif.Proofs.ExitClosed
 import UscxmlVerif.Proofs.ParentsFast
+import UscxmlVerif.Proofs.EntryDoc
 /-!
 # C02 — the active configuration is legal after every micro-step (the part that needs no assumption)
 
@@ -67,14 +68,16 @@ theorem parents_stay_active_partial (c : Chart) (hcoh : Proofs.Struct.Coherent c
   have h := Proofs.ParentsFast.run_pc c hcoh hi hk' hp hpf eng ops
   exact ⟨h.1, Proofs.Parents.configOk_of_pc hk' h⟩
 
-/-- the same for `flatten` of every well-formed document: coherence and the numbering are theorems there -/
+/-- the same for `flatten` of every well-formed document without `<history>` elements: coherence, the numbering and `EntryOk` are
+theorems there; what remains to be evaluated is that the selectable transitions are plain (sources are states, targets resolve to
+real states other than the root) -/
 theorem parents_stay_active_of_document_partial (d : Doc) (late : Bool) (hwf : Proofs.Flatten.WFDoc d = true) (hroot : d.kind = .scxml)
-    (hk : Proofs.EntryClosed.EntryOk (flatten d late) = true) (hp : Proofs.Parents.SelPlain (flatten d late) = true)
+    (hn : Proofs.EntryDoc.NoHistDoc d = true) (hp : Proofs.Parents.SelPlain (flatten d late) = true)
     (hpf : Proofs.ParentsFast.SelPlainF (flatten d late) = true) (eng : Engine) (ops : List Op) :
     Proofs.ExitClosed.ParentClosed (flatten d late) (run eng (flatten d late) ops).a.e.config ∧
       Proofs.Struct.ConfigOk (flatten d late) (run eng (flatten d late) ops).a.e.config :=
   parents_stay_active_partial (flatten d late) (Proofs.Flatten.coherent_flatten d late hwf hroot)
-    (Proofs.Subtree.intervalOK_flatten d late hwf hroot) hk hp hpf eng ops
+    (Proofs.Subtree.intervalOK_flatten d late hwf hroot) (Proofs.EntryDoc.entryOk_flatten d late hwf hroot hn) hp hpf eng ops
 
 /-- one engine step keeps the invariant from any state that has it (not only from reachable ones) -/
 theorem step_keeps_parents (c : Chart) (hcoh : Proofs.Struct.Coherent c = true) (hi : Proofs.Interval.IntervalOK c = true)
